@@ -4,9 +4,9 @@ import math
 import random
 
 from harness import aggfam, core, gen
-from harness.core import llit, slit
+from harness.core import llit, qlit, slit, zlit
 
-IMPORTS = "From Coq Require Import ZArith List String.\nImport ListNotations.\nFrom Elex Require Import Base.Frame Model.GaussAssign.\n"
+IMPORTS = "From Coq Require Import ZArith QArith List String.\nImport ListNotations.\nFrom Elex Require Import Base.Frame Model.GaussAssign.\n"
 
 RULE = ("gaussian get_estimates runs over group structures (1-3 states, 2-5 counties per state, optional districts = 3 aggregate levels; 14-260 units so "
         "that groups hold 0, fewer than 10, or >= 10 calibration units, total calibration below and above 10; groups present only among nonreporting "
@@ -73,6 +73,7 @@ def worker(job):
         T = min(10, len(conf))
         used_levels = set()
         checks = []
+        check_labels = []
         conf_lit = llit([f"({llit([slit(r[c]) for c in agg])}, {i}%nat)" for i, r in enumerate(conf)])
         nu_lit = llit([llit([slit(x) for x in g]) for g in nu_groups])
         q = (3 + cp["alpha"]) / 4
@@ -117,6 +118,7 @@ def worker(job):
                 res["s"].append({"what": f"aggregate {agg}, group {g} ({own} own calibration units, threshold {T}): the interval uses the calibration statistics of level(s) "
                                          f"{levels or 'none of its own ancestors'}, the rule says level {want} (0 = all units, {k} = the group itself)", "kind": "wrong-calibration-set"})
             checks.append(f"check_assign {k}%nat conf nu {llit([slit(x) for x in g])} {llit([f'{j}%nat' for j in levels])}")
+            check_labels.append(f"{agg}|{g}")
         # reported bounds equal the formula on the matched row:
         #   bound = round( max(sum of baselines + summed unit bound -/+ normal quantile(row statistics), counted votes of the outstanding units)
         #                  + counted votes of everything else in the group )
@@ -139,13 +141,18 @@ def worker(job):
                     raw = wsum + m[f"nonreporting_aggregate_{side}_bound"] + sign * ppf
                     want = max(raw, vn) + (tr[f"results_{e}"] - vn)
                     got = tr[f"{side}_{cp['alpha']}_{e}"]
+                    if math.isfinite(ppf) and math.isfinite(got) and float(got).is_integer():
+                        # the same two steps inside Coq, on the exact values of the captured numbers (norm.ppf's value is the oracle)
+                        checks.append(f"check_reported_bound {core.blit(side == 'upper')} {qlit(m[f'nonreporting_aggregate_{side}_bound'])} {qlit(wsum)} {qlit(ppf)} "
+                                      f"{qlit(vn)} {qlit(tr[f'results_{e}'] - vn)} {zlit(int(got))}")
+                        check_labels.append(f"{agg}|{g}|{side}-bound")
                     if not math.isfinite(want) or abs(got - want) > 0.5 + 1e-6 * max(1.0, abs(want)):
                         res["s"].append({"what": f"aggregate {agg}, group {g}, level {cp['alpha']}: reported {side} bound {got} but the formula on the group's own model row, "
                                                  f"floored at the {vn} votes already counted in its outstanding units, gives {want}", "kind": "formula"})
                         break
         if checks:
             res["exprs"].append(f"let conf := {conf_lit} in let nu := {nu_lit} in {llit(checks)}")
-            res["labels"].append([f"{agg}|{g}" for g in nu_groups if len(rows_by_group.get(tuple(g), [])) == 1][: len(checks)])
+            res["labels"].append(check_labels)
         res["fp"].append({"office": case["office"], "agg": agg, "T": T, "levels": sorted(used_levels)})
         if len(used_levels) >= 2:
             res["nontrivial"] = True
